@@ -28,6 +28,15 @@ def make_case(tsl, rng, name):
     c = {"name": name, "L": export_tsl(tsl), "canon": export_tsl(canon), "canon2": export_tsl(canon.canonicalize()),
          "reparsed": export_tsl(parse_tsl_text(str(tsl))), "canon_reparsed": export_tsl(parse_tsl_text(str(canon))),
          "text": str(tsl)}
+    # through the IR: the attribute as xDSL prints it inside a memref type of a module, re-parsed by the IR parser
+    from xdsl.parser import Parser
+    shape = "x".join("?" if any(s.bound is None for s in ts.strides) else str(_prod([s.bound for s in ts.strides])) for ts in tsl.tstrides)
+    mod_text = f"builtin.module {{\n  func.func private @f(memref<{shape}xi8, {attr}>) -> ()\n}}\n"
+    mod = Parser(repo.opt_main().ctx, mod_text).parse_module()
+    printed = str(mod)
+    mod2 = Parser(repo.opt_main().ctx, printed).parse_module()
+    fn2 = [o for o in mod2.walk() if o.name == "func.func"][0]
+    c["attr_reparsed"] = export_tsl(fn2.function_type.inputs.data[0].layout.data)
     if tsl.is_dynamic() or tsl.offset is None:
         c["kind"] = "tsl_dyn"
         return c
